@@ -1,6 +1,6 @@
 From Coq Require Import List Arith Lia Bool.
 Import ListNotations.
-Require Import Infix.
+From MoSql Require Import Model.Infix.
 
 (* Token-level expression reader with parentheses on top of the reducer: parse (tokens a) = value of a *)
 Section Expr.
@@ -194,4 +194,4 @@ Proof.
 Qed.
 
 End Expr.
-Print Assumptions parse_tokens.
+
